@@ -26,14 +26,16 @@ def gen_opts(rng, d, exact):
     else:
         n_max = 20
     if rng.random() < 0.6:
-        o['N_min'] = rng.choice([2, 2, 3, min(n_max, max(2, d)), n_max + 1, max(2, d // 2)])
+        o['N_min'] = max(2, rng.choice([2, 2, 3, min(n_max, max(2, d)), n_max + 1, max(2, d // 2)]))
     r = rng.random()
     if r < 0.45:
-        o['N_cache'] = rng.choice([2, 2, 3, 4, max(2, n_max - 1), n_max, n_max + 2])
+        o['N_cache'] = max(2, rng.choice([2, 2, 3, 4, max(2, n_max - 1), n_max, n_max + 2]))
+    if n_max < 2 and 'N_cache' not in o:
+        o['N_cache'] = 2      # the default N_cache = N_max = 1 is rejected by the constructor (documented)
     if rng.random() < 0.3:
         o['reortho'] = True
     if exact or rng.random() < 0.3:
-        o['cutoff'] = rng.choice([1e-8, 1e-10, 1e-12])
+        o['cutoff'] = rng.choice([1e-6, 1e-8, 1e-9]) if exact else rng.choice([1e-8, 1e-10, 1e-12])
     if rng.random() < 0.3:
         o['E_shift'] = rng.choice([-8.0, -2.5, -0.5, 0.75, 3.0, 10.0])
     if rng.random() < 0.15:
@@ -76,6 +78,12 @@ def gen_case(rng, exact, evo=False):
         case['ortho'] = n_ortho
         case['start'] = rng.choice(['random', 'random', 'random', 'eigvec', 'two-eigvecs', 'three-eigvecs'])
     case['opts'] = gen_opts(rng, d, exact)
+    if n_ortho and rng.random() < 0.7:
+        # documented use: shift the spectrum below zero, the projected-out vectors sit at eigenvalue 0
+        # ('auto' is resolved when the operator is built: -(largest eigenvalue + 1), a multiple of 1/4; a shift far
+        # beyond the spectrum makes the rounding-level components along the o's grow by a large factor per step)
+        case['opts']['E_shift'] = 'auto'
+        case['shift_margin'] = rng.choice([1.0, 1.0, 2.5, 10.0])
     if evo:
         case['opts'].pop('E_tol', None)
         case['delta'] = rng.choice([[0, -0.1], [0, 0.1], [0, 1.0], [0, -0.7], [0.1, 0], [-0.5, 0], [1.0, 0],
@@ -129,6 +137,44 @@ def build_inputs(case):
     O = np.zeros((n, k), dtype=complex if cplx else float)
     O[idx, :] = Os
     return dict(M=M, v0=L.embed(st, idx, x, dtype=dtype), O=O, idx=idx, cplx=cplx)
+
+
+def resolve_opts(case, Hs):
+    opts = dict(case['opts'])
+    if opts.get('E_shift') == 'auto':
+        lam_max = np.linalg.eigvalsh((Hs + Hs.conj().T) / 2)[-1]
+        opts['E_shift'] = -float(np.ceil(4 * (lam_max + case.get('shift_margin', 1.0))) / 4)
+    return opts
+
+
+def krylov_reach(Hg, x0, scale):
+    """dimension of the Krylov space of (Hg, x0): number of distinct eigenvalues of Hg that x0 overlaps"""
+    w, U = np.linalg.eigh((Hg + Hg.conj().T) / 2)
+    wt = np.abs(U.conj().T @ x0)
+    groups, cur = 0, None
+    hit = False
+    for lam, a in zip(w, wt):
+        if cur is None or lam - cur > 1e-9 * scale:
+            groups += hit
+            hit = False
+        cur = lam
+        hit = hit or a > 1e-8 * np.linalg.norm(x0)
+    return groups + hit
+
+
+def condition_opts(opts, Hg, x0, scale, exact=False):
+    """A run that continues after an exact breakdown (Krylov space exhausted) divides by a norm that is pure
+    rounding noise (~1e-16 ||H + E_shift|| sqrt(d), above the *absolute* default cutoff 2.2e-14 once the norm
+    of the operator is ~10 or more) and is not the exact-arithmetic algorithm any more.  When a breakdown can
+    happen within N_max steps and the case does not choose a cutoff itself, one above the noise is chosen."""
+    reach = krylov_reach(Hg, x0, scale)
+    if not exact and defaults(opts)['N_min'] > max(2, reach):
+        opts = dict(opts, N_min=max(2, reach))     # float cases are not forced past the breakdown
+    if 'cutoff' in opts:
+        return opts
+    if reach <= defaults(opts)['N_max']:
+        return dict(opts, cutoff=1e-9)
+    return opts
 
 
 def make_operator(case, inp, wrap_reuse=None):
@@ -213,12 +259,12 @@ def cache_variants(o):
 def eval_gs(case):
     """-> (fails: list of (kind, signature, detail), lines: list of (tag, driver line, run), info dict)"""
     inp = build_inputs(case)
-    opts = dict(case['opts'])
-    o = defaults(opts)
     fails, lines = [], []
     idx = inp['idx']
     d = case['d']
     Hs = inp['M'][np.ix_(idx, idx)]
+    opts = resolve_opts(case, Hs)
+    o = defaults(opts)
     Os = inp['O'][idx, :]
     x0 = inp['v0'][idx]
     scale = max(1.0, np.linalg.norm(Hs, 2))
@@ -228,6 +274,8 @@ def eval_gs(case):
     lam_given = np.linalg.eigvalsh((Heff_shifted + Heff_shifted.conj().T) / 2)
     Q = L.complement_basis(B, d)
     lam_c = np.linalg.eigvalsh(Q.conj().T @ Hs @ Q) if Q.shape[1] else np.array([])
+    opts = condition_opts(opts, Heff_shifted, x0, max(scale, abs(sh)), case['mode'] == 'exact')
+    o = defaults(opts)
     base = run_real(case, inp, opts)
     info = dict(N=base.get('N'), raised='raise' in base)
     if 'raise' in base:
@@ -248,7 +296,7 @@ def eval_gs(case):
     if not Os.shape[1]:
         runs[('E_shift', o3.get('E_shift'))] = (o3, run_real(case, inp, o3))
 
-    in_complement = (not Os.shape[1]) or np.linalg.norm(B.conj().T @ x0) < 1e-9 * np.linalg.norm(x0)
+    x0_in_complement = (not Os.shape[1]) or np.linalg.norm(B.conj().T @ x0) < 1e-9 * np.linalg.norm(x0)
     for tag, (oo, r) in runs.items():
         if 'raise' in r:
             fails.append(('property', 'lanczos.variant-raises', f'{tag}: {r["raise"]}'))
@@ -278,16 +326,24 @@ def eval_gs(case):
         if r['E'] < lam_min_given - TOL_E * scale:
             fails.append(('property', 'lanczos.E-below-smallest-eigenvalue',
                           f'{tag}: E={r["E"]!r} lambda_min={lam_min_given!r}'))
+        # with projected-out vectors: they are eigenvectors of P(H+s)P at 0; the documented way to keep the
+        # result in the complement is a shift that makes the wanted eigenvalue negative
+        in_complement = x0_in_complement and ((not Os.shape[1]) or lam_c[0] + shv < -0.05)
         if in_complement:
+            extra = 0.0
             if Os.shape[1]:
                 ov = np.linalg.norm(B.conj().T @ psi)
-                if ov > 1e-9:
+                # rounding re-introduces the projected-out directions and the recurrence amplifies them with the
+                # step number (they sit at eigenvalue 0, far outside the shifted spectrum): bound only short runs,
+                # and widen the H-based tolerances by what the measured overlap can contribute
+                if ov > 1e-7 and r['N'] <= 12:
                     fails.append(('property', 'lanczos.ortho.result-not-orthogonal', f'{tag}: {ov!r}'))
-                if r['E'] < lam_c[0] - TOL_E * scale:
+                extra = 4 * (abs(shv) + scale) * ov
+                if r['E'] < lam_c[0] - TOL_E * scale - extra:
                     fails.append(('property', 'lanczos.ortho.E-below-smallest-eigenvalue-of-complement',
                                   f'{tag}: E={r["E"]!r} lam={lam_c[0]!r}'))
             rq2 = float(np.real(np.vdot(psi, Hs @ psi)))
-            if rel(rq2, r['E'], scale) > tol_rq:
+            if abs(rq2 - r['E']) > tol_rq * max(scale, abs(rq2)) + extra:
                 fails.append(('property', 'lanczos.E-is-not-<psi|H|psi>',
                               f'{tag}: E={r["E"]!r} <psi|H|psi>={rq2!r} N={r["N"]} opts={oo}'))
             dim_c = Q.shape[1]
@@ -300,7 +356,7 @@ def eval_gs(case):
                 wts = np.abs(Uc.conj().T @ xc) / np.linalg.norm(xc)
                 cand = [wc[i] for i in range(dim_c) if wts[i] > 1e-6]
                 tgt = min(cand) if cand else tgt
-                if rel(r['E'], tgt, scale) > 1e-8:
+                if r['E'] > tgt + 1e-8 * scale:     # (rounding can only bring in lower eigenvectors)
                     fails.append(('property', 'lanczos.full-dimension.E-not-smallest-eigenvalue',
                                   f'{tag}: E={r["E"]!r} expected={tgt!r} N={r["N"]} dim={dim_c}'))
     # N_cache independence (reortho = False: exact; reortho = True: only E, looser)
@@ -308,14 +364,15 @@ def eval_gs(case):
         if tag[0] != 'N_cache' or 'raise' in r:
             continue
         if r['N'] != base['N']:
-            fails.append(('property', 'lanczos.N_cache-changes-number-of-steps',
-                          f'{tag}: N={r["N"]} vs {base["N"]} opts={opts}'))
+            if not o['reortho']:   # with reortho the basis legitimately depends on what is cached
+                fails.append(('property', 'lanczos.N_cache-changes-number-of-steps',
+                              f'{tag}: N={r["N"]} vs {base["N"]} opts={opts}'))
             continue
         strict = base['N'] <= 12
         tolE = TOL_E if (strict or not o['reortho']) else 1e-6
         if rel(r['E'], base['E'], scale) > tolE:
             fails.append(('property', 'lanczos.N_cache-changes-E', f'{tag}: {r["E"]!r} vs {base["E"]!r} opts={opts}'))
-        if not o['reortho'] or strict:
+        if not o['reortho']:
             dv = np.linalg.norm(r['psi'] - base['psi'])
             if dv > (TOL_VEC if strict else 1e-5):
                 fails.append(('property', 'lanczos.N_cache-changes-result-vector',
@@ -351,9 +408,9 @@ def compare_model(tag, line, run, out, scale):
     if out['N'] != run['N']:
         return [('lanczos.model-N', f'{tag}: model N={out["N"]} impl N={run["N"]}')]
     N = run['N']
-    a_m, b_m = L.floats(out['alphas']), L.floats(out['betas'])
+    a_m, b_m = L.floats(out.get('alphas', [])), L.floats(out.get('betas', []))
     a_i, b_i = np.array(run['alphas']), np.array(run['betas'])
-    for k in range(N):
+    for k in range(N if 'alphas' in out else 0):
         if rel(a_m[k], a_i[k], scale) > TOL_MODEL:
             bad.append(('lanczos.model-alpha', f'{tag}: k={k} model {a_m[k]!r} impl {a_i[k]!r}'))
             break
@@ -383,12 +440,12 @@ def well_conditioned_for_model(run):
 
 def eval_evo(case):
     inp = build_inputs(case)
-    opts = dict(case['opts'])
-    o = defaults(opts)
     fails, lines = [], []
     idx = inp['idx']
     d = case['d']
     Hs = inp['M'][np.ix_(idx, idx)]
+    opts = resolve_opts(case, Hs)
+    o = defaults(opts)
     Os = inp['O'][idx, :]
     x0 = inp['v0'][idx]
     P, B = L.ortho_complement_projector(Os)
@@ -398,6 +455,9 @@ def eval_evo(case):
     if case['delta'][1] == 0:
         delta = float(case['delta'][0])
     normalize = case['normalize']
+    scale = max(1.0, np.linalg.norm(Hs, 2), abs(sh))
+    opts = condition_opts(opts, Hg, x0, scale, case['mode'] == 'exact')
+    o = defaults(opts)
     r = run_real(case, inp, opts, delta=delta, normalize=normalize)
     info = dict(N=r.get('N'), raised='raise' in r)
     if 'raise' in r:
@@ -407,7 +467,10 @@ def eval_evo(case):
     psi = r['psi'][idx]
     if np.linalg.norm(np.delete(r['psi'], idx)) > 1e-12:
         fails.append(('property', 'evo.result-leaves-charge-sector', ''))
-    exact = scipy.linalg.expm(delta * Hg) @ x0
+    # exp(delta P(H+s)P) x0, evaluated in the complement basis (+ the untouched component along the o's)
+    Q = L.complement_basis(B, d)
+    exact = Q @ (scipy.linalg.expm(delta * (Q.conj().T @ (Hs + sh * np.eye(d)) @ Q)) @ (Q.conj().T @ x0)) \
+        + B @ (B.conj().T @ x0)
     norm_expected = np.real(delta) == 0.0 if normalize is None else normalize
     n0 = np.linalg.norm(x0)
     if norm_expected:
@@ -421,13 +484,15 @@ def eval_evo(case):
                           f'|psi|={np.linalg.norm(psi)!r} |psi0|={n0!r} delta={delta} N={r["N"]}'))
     # accuracy: guaranteed when the Krylov space is the whole reachable space (N >= dimension, or an exit on an
     # invariant subspace), or when the solver itself reports convergence before N_max
-    dim_reach = np.linalg.matrix_rank(np.column_stack([np.linalg.matrix_power(Hg, k) @ x0 for k in range(d)]),
-                                      tol=1e-9) if d <= 12 else d
+    dim_reach = krylov_reach(Hg, x0, scale)
     full = r['N'] >= dim_reach
     converged = r['N'] < o['N_max'] and r['N'] >= o['N_min'] and defaults(opts).get('P_tol', 1e-14) <= 1e-10 \
         if 'P_tol' in opts else (r['N'] < o['N_max'] and r['N'] >= o['N_min'])
     strict = r['N'] <= 12 or (o['reortho'] and o['N_cache'] >= r['N'])
-    err = np.linalg.norm(psi - target) / max(np.linalg.norm(target), 1e-300)
+    # relative error, forgiving an absolute 1e-13 |psi0| (a strongly damped result sits on rounding noise)
+    err = max(0.0, np.linalg.norm(psi - target) - 1e-13 * (1.0 if norm_expected else n0)) / max(np.linalg.norm(target), 1e-300)
+    if norm_expected and np.linalg.norm(exact) < 1e-6 * n0:
+        err = 0.0   # normalising a vector that is mostly rounding noise: nothing to compare
     info['err'] = float(err)
     info['full'] = bool(full)
     if (full and strict and d <= 12) and err > 1e-8:
